@@ -284,15 +284,17 @@ def run_check(prop, tier, seed):
   agg = {}
   violations = []
   harness_errors = list(errors)
+  run_errors = []      # exceptions of the harness inside single runs
   det = {}
   trees = set()
   for job, res in results:
     trees.add(res['tree'])
     if job.tag.startswith('det'):
       det.setdefault(job.batch_id, {})[job.tag] = res['digests']
-      for he in res['harness_errors']:
-        harness_errors.append('run %s#%d: %s' % (job.batch_id, he['index'],
-                                                 he['trace'][-700:]))
+      if job.tag == 'det0':
+        for he in res['harness_errors']:
+          run_errors.append('run %s#%d: %s' % (job.batch_id, he['index'],
+                                               he['trace'][-700:]))
       continue
     a = agg.setdefault(job.batch_id, {
         'runs': 0, 'nontrivial': 0, 'ops': 0, 'compared': 0, 'faults': {},
@@ -313,8 +315,8 @@ def run_check(prop, tier, seed):
       v['batch'] = job.batch_id
       violations.append(v)
     for he in res['harness_errors']:
-      harness_errors.append('run %s#%d: %s' % (job.batch_id, he['index'],
-                                               he['trace'][-700:]))
+      run_errors.append('run %s#%d: %s' % (job.batch_id, he['index'],
+                                           he['trace'][-700:]))
   det_checked = 0
   for bid, tags in det.items():
     if len(tags) != 2:
@@ -329,6 +331,12 @@ def run_check(prop, tier, seed):
           'with different PYTHONHASHSEED' % (bid, bad[:10]))
   if len(trees) > 1:
     harness_errors.append('the working tree changed while the check ran')
+  # A run in which the harness itself raised was not explored: it is reported
+  # (stdout, evidence) and tolerated while rare; more than a handful means the
+  # harness does not fit the tree under test and nothing is claimed.
+  total_runs = sum(a['runs'] for a in agg.values()) + len(run_errors)
+  if len(run_errors) > max(2, total_runs // 500):
+    harness_errors.extend(run_errors)
 
   # ---- violations: shrink, replay, classify ------------------------------
   findings = core.load_known_findings()
@@ -365,8 +373,15 @@ def run_check(prop, tier, seed):
   # ---- evidence -----------------------------------------------------------
   wall = time.time() - t0
   evidence = build_evidence(prop, tier, seed, spec, agg, wall, len(violations),
-                            det_checked, skipped_blocks, harness_errors,
+                            det_checked, skipped_blocks,
+                            harness_errors + ['(tolerated) ' + e
+                                              for e in run_errors
+                                              if e not in harness_errors],
                             known_lines, reported)
+  for e in run_errors:
+    if e not in harness_errors:
+      print('WARNING: run not explored, the harness raised: ' +
+            e.replace('\n', '\n    ')[:900])
   core.write_json(os.path.join(OUT_DIR, 'evidence', prop + '.json'),
                   evidence)
   cov = evidence['coverage']
